@@ -1,5 +1,5 @@
 (* C12 -- lemmas about the DPE model (proofs). *)
-From Coq Require Import ZArith Reals Bool Lia Lra ZifyBool.
+From Coq Require Import ZArith Reals Bool Lia Lra Psatz ZifyBool.
 From Flocq Require Import Core BinarySingleNaN Relative Sterbenz.
 Require Import MPSV.Dpe.DpeDefs MPSV.Dpe.DpeModel.
 Open Scope Z_scope.
@@ -16,9 +16,10 @@ Qed.
 
 Lemma esp_distance_same : forall a, in_long a -> esp_distance a a = 0.
 Proof.
-  intros a [H1 H2]. unfold esp_distance, LONG_MIN, LONG_MAX in *.
-  destruct (a <? 0) eqn:?; destruct (0 <? a) eqn:?; simpl;
-  repeat match goal with |- context [if ?b then _ else _] => destruct b eqn:? end; lia.
+  intros a [H1 H2]. unfold esp_distance.
+  assert (E1 : (a <? 0) && (LONG_MAX + a <? a) = false) by (unfold LONG_MAX; lia).
+  assert (E2 : (0 <? a) && (a <? LONG_MIN + a) = false) by (unfold LONG_MIN; lia).
+  rewrite E1, E2. lia.
 Qed.
 
 (* ---- signs of binary64 values ---------------------------------------------------- *)
@@ -49,11 +50,11 @@ Proof.
 Qed.
 Lemma feq0_spec : forall m : b64, is_finite m = true -> (feq0 m = true <-> B2R m = 0%R).
 Proof.
-  intros m Hm. destruct m as [s|s| |s mm e He]; simpl in *; try discriminate.
+  intros m Hm. destruct m as [s|s| |s mm e He]; try discriminate Hm.
   - split; reflexivity.
-  - split; intro H; try discriminate. exfalso.
-    assert (Hs : is_finite_strict (B754_finite s mm e He : b64) = true) by reflexivity.
-    pose proof (abs_B2R_ge_emin 53 1024 _ Hs) as Hb. simpl in Hb. rewrite H, Rabs_R0 in Hb.
+  - set (f := (B754_finite s mm e He : b64)). split; intro H; [discriminate H|]. exfalso.
+    assert (Hs : is_finite_strict f = true) by reflexivity.
+    pose proof (abs_B2R_ge_emin 53 1024 f Hs) as Hb. rewrite H, Rabs_R0 in Hb.
     pose proof (bpow_gt_0 radix2 (SpecFloat.emin 53 1024)). lra.
 Qed.
 
@@ -107,15 +108,8 @@ Proof.
   pose proof (ffrexp_spec m Hm) as H. destruct (ffrexp m) as [z i].
   destruct H as [Hz [Hv _]].
   assert (Hp := bpow_gt_0 radix2 i).
-  assert (S1 : (0 < B2R z)%R <-> (0 < B2R m)%R).
-  { rewrite Hv. split; intro. apply Rmult_lt_0_compat; assumption.
-    destruct (Rle_or_lt (B2R z) 0) as [Hle|]; [|assumption]. exfalso.
-    assert (B2R z * bpow radix2 i <= 0)%R by (apply Rmult_le_0_r; lra). lra. }
-  assert (S2 : (B2R z < 0)%R <-> (B2R m < 0)%R).
-  { rewrite Hv. split; intro.
-    - assert (0 < (- B2R z) * bpow radix2 i)%R by (apply Rmult_lt_0_compat; lra). lra.
-    - destruct (Rle_or_lt 0 (B2R z)) as [Hle|]; [|assumption]. exfalso.
-      assert (0 <= B2R z * bpow radix2 i)%R by (apply Rmult_le_pos; lra). lra. }
+  assert (S1 : (0 < B2R z)%R <-> (0 < B2R m)%R) by (rewrite Hv; split; intro; nra).
+  assert (S2 : (B2R z < 0)%R <-> (B2R m < 0)%R) by (rewrite Hv; split; intro; nra).
   destruct (feq0 z); simpl; repeat split; try assumption; tauto.
 Qed.
 
@@ -128,10 +122,27 @@ Proof.
   intros m Hm.
   pose proof (fgt0_spec m Hm) as G. pose proof (flt0_spec m Hm) as L. pose proof (feq0_spec m Hm) as Q.
   pose proof (fle0_spec m Hm) as LE. pose proof (fge0_spec m Hm) as GE.
-  destruct (fgt0 m), (flt0 m), (feq0 m), (fle0 m), (fge0 m);
-  destruct (Rtotal_order (B2R m) 0) as [T|[T|T]];
-  try (exfalso; intuition (try lra; try discriminate); fail);
-  [ right; right | right; left | left ]; repeat split; try reflexivity; try lra.
+  assert (T : forall (b : bool) (P : Prop), (b = true <-> P) -> ~ P -> b = false).
+  { intros b P HbP HnP. destruct b; [exfalso; apply HnP, HbP; reflexivity | reflexivity]. }
+  destruct (Rtotal_order (B2R m) 0) as [S|[S|S]].
+  - right; left. split; [assumption|]. repeat split.
+    + apply (T _ _ G); lra.
+    + apply L; assumption.
+    + apply (T _ _ Q); lra.
+    + apply LE; lra.
+    + apply (T _ _ GE); lra.
+  - right; right. split; [assumption|]. repeat split.
+    + apply (T _ _ G); lra.
+    + apply (T _ _ L); lra.
+    + apply Q; assumption.
+    + apply LE; lra.
+    + apply GE; lra.
+  - left. split; [assumption|]. repeat split.
+    + apply G; assumption.
+    + apply (T _ _ L); lra.
+    + apply (T _ _ Q); lra.
+    + apply (T _ _ LE); lra.
+    + apply GE; lra.
 Qed.
 
 (* ---- magnitude of normalised values ---------------------------------------------------- *)
@@ -151,8 +162,7 @@ Lemma rval_sign_pos : forall x, (0 < B2R (mnt x))%R -> (0 < rval x)%R.
 Proof. intros x H. unfold rval. apply Rmult_lt_0_compat; [assumption|apply bpow_gt_0]. Qed.
 Lemma rval_sign_neg : forall x, (B2R (mnt x) < 0)%R -> (rval x < 0)%R.
 Proof.
-  intros x H. unfold rval. assert (0 < - B2R (mnt x) * bpow radix2 (esp x))%R.
-  apply Rmult_lt_0_compat; [lra|apply bpow_gt_0]. lra.
+  intros x H. unfold rval. assert (Hp := bpow_gt_0 radix2 (esp x)). nra.
 Qed.
 Lemma rval_sign_zero : forall x, (B2R (mnt x) = 0)%R -> (rval x = 0)%R.
 Proof. intros x H. unfold rval. rewrite H. ring. Qed.
@@ -203,13 +213,7 @@ Lemma sub_sign_zero_r : forall x y, normalised x -> normalised y -> B2R (mnt y) 
 Proof.
   intros x y [Fx _] [Fy _] Hy. unfold sub_sign_ok, rdpe_sub, rdpe_sub_gen.
   rewrite (proj2 (feq0_spec _ Fy) Hy). rewrite (rval_sign_zero y Hy).
-  split; [assumption|]. unfold rval. assert (Hp := bpow_gt_0 radix2 (esp x)). split; split; intro H.
-  - apply Rmult_lt_0_compat; assumption.
-  - destruct (Rle_or_lt (B2R (mnt x)) 0); [|assumption]. exfalso.
-    assert (B2R (mnt x) * bpow radix2 (esp x) <= 0)%R by (apply Rmult_le_0_r; lra). lra.
-  - assert (0 < - B2R (mnt x) * bpow radix2 (esp x))%R by (apply Rmult_lt_0_compat; lra). lra.
-  - destruct (Rle_or_lt 0 (B2R (mnt x))); [|assumption]. exfalso.
-    assert (0 <= B2R (mnt x) * bpow radix2 (esp x))%R by (apply Rmult_le_pos; lra). lra.
+  split; [assumption|]. unfold rval. assert (Hp := bpow_gt_0 radix2 (esp x)). split; split; intro H; nra.
 Qed.
 
 Lemma sub_sign_zero_l : forall x y, normalised x -> normalised y ->
@@ -219,13 +223,7 @@ Proof.
   destruct (feq0 (mnt y)) eqn:Ey. { apply (feq0_spec _ Fy) in Ey. contradiction. }
   rewrite (proj2 (feq0_spec _ Fx) Hx). simpl mnt. unfold fneg. rewrite B2R_Bopp, is_finite_Bopp.
   rewrite (rval_sign_zero x Hx).
-  split; [assumption|]. unfold rval. assert (Hp := bpow_gt_0 radix2 (esp y)). split; split; intro H.
-  - assert (0 < - B2R (mnt y) * bpow radix2 (esp y))%R by (apply Rmult_lt_0_compat; lra). lra.
-  - destruct (Rle_or_lt 0 (B2R (mnt y))); [|lra]. exfalso.
-    assert (0 <= B2R (mnt y) * bpow radix2 (esp y))%R by (apply Rmult_le_pos; lra). lra.
-  - assert (0 < B2R (mnt y) * bpow radix2 (esp y))%R by (apply Rmult_lt_0_compat; lra). lra.
-  - destruct (Rle_or_lt (B2R (mnt y)) 0); [|lra]. exfalso.
-    assert (B2R (mnt y) * bpow radix2 (esp y) <= 0)%R by (apply Rmult_le_0_r; lra). lra.
+  split; [assumption|]. unfold rval. assert (Hp := bpow_gt_0 radix2 (esp y)). split; split; intro H; nra.
 Qed.
 
 Lemma sub_sign_same_exp : forall x y, normalised x -> normalised y -> in_long (esp x) ->
@@ -241,11 +239,7 @@ Proof.
   destruct (fsub_same_binade _ _ Fx Fy Nx Ny Hs) as [Ft Vt].
   destruct (norm_mnt_sign (fsub (mnt x) (mnt y)) (esp x) Ft) as [F1 [S1 S2]].
   split; [assumption|]. rewrite S1, S2, Vt. unfold rval. rewrite <- He.
-  assert (Hp := bpow_gt_0 radix2 (esp x)). split; split; intro H.
-  - apply Rmult_lt_compat_r; lra.
-  - apply Rmult_lt_reg_r in H; lra.
-  - apply Rmult_lt_compat_r; lra.
-  - apply Rmult_lt_reg_r in H; lra.
+  assert (Hp := bpow_gt_0 radix2 (esp x)). split; split; intro H; nra.
 Qed.
 
 (* ---- the ordering operators (fixed code) agree with the order of the reals --------------- *)
@@ -282,11 +276,11 @@ Proof.
     assert (Zx : nonzero x) by (unfold nonzero; lra). assert (Zy : nonzero y) by (unfold nonzero; lra).
     pose proof (rval_sign_pos x Sx). pose proof (rval_sign_pos y Sy).
     destruct (esp y <? esp x) eqn:E1; [|destruct (esp x <? esp y) eqn:E2].
-    + pose proof (rval_abs_lt x y Nx Ny Zx Zy ltac:(lia)) as K. rewrite !Rabs_pos_eq in K by lra.
+    + pose proof (rval_abs_lt x y Nx Ny Zx Zy (proj1 (Z.ltb_lt _ _) E1)) as K. rewrite !Rabs_pos_eq in K by lra.
       destruct o; simpl; rewrite ?A1, ?A2; split; intro; try discriminate; try reflexivity; unfold ord_R in *; lra.
-    + pose proof (rval_abs_lt y x Ny Nx Zy Zx ltac:(lia)) as K. rewrite !Rabs_pos_eq in K by lra.
+    + pose proof (rval_abs_lt y x Ny Nx Zy Zx (proj1 (Z.ltb_lt _ _) E2)) as K. rewrite !Rabs_pos_eq in K by lra.
       destruct o; simpl; rewrite ?A1, ?A2; split; intro; try discriminate; try reflexivity; unfold ord_R in *; lra.
-    + apply ord_final_spec. apply sub_sign_same_exp; try assumption. lia. left; split; assumption.
+    + apply ord_final_spec. apply sub_sign_same_exp; try assumption. apply Z.le_antisymm; apply Z.ltb_ge; assumption. left; split; assumption.
   - (* + - *)
     pose proof (rval_sign_pos x Sx). pose proof (rval_sign_neg y Sy).
     destruct o; simpl; split; intro; try discriminate; try reflexivity; unfold ord_R in *; lra.
@@ -299,11 +293,11 @@ Proof.
     assert (Zx : nonzero x) by (unfold nonzero; lra). assert (Zy : nonzero y) by (unfold nonzero; lra).
     pose proof (rval_sign_neg x Sx). pose proof (rval_sign_neg y Sy).
     destruct (esp y <? esp x) eqn:E1; [|destruct (esp x <? esp y) eqn:E2].
-    + pose proof (rval_abs_lt x y Nx Ny Zx Zy ltac:(lia)) as K. rewrite !Rabs_left in K by lra.
+    + pose proof (rval_abs_lt x y Nx Ny Zx Zy (proj1 (Z.ltb_lt _ _) E1)) as K. rewrite !Rabs_left in K by lra.
       destruct o; simpl; rewrite ?A1, ?A2; split; intro; try discriminate; try reflexivity; unfold ord_R in *; lra.
-    + pose proof (rval_abs_lt y x Ny Nx Zy Zx ltac:(lia)) as K. rewrite !Rabs_left in K by lra.
+    + pose proof (rval_abs_lt y x Ny Nx Zy Zx (proj1 (Z.ltb_lt _ _) E2)) as K. rewrite !Rabs_left in K by lra.
       destruct o; simpl; rewrite ?A1, ?A2; split; intro; try discriminate; try reflexivity; unfold ord_R in *; lra.
-    + apply ord_final_spec. apply sub_sign_same_exp; try assumption. lia. right; split; assumption.
+    + apply ord_final_spec. apply sub_sign_same_exp; try assumption. apply Z.le_antisymm; apply Z.ltb_ge; assumption. right; split; assumption.
   - (* - 0 *)
     apply ord_final_spec. apply sub_sign_zero_r; assumption.
   - (* 0 + *)
@@ -502,8 +496,8 @@ Proof. unfold fhalf, B2R, F2R; simpl. unfold Z.pow_pos; simpl. lra. Qed.
 Lemma B2R_fmhalf : B2R fmhalf = (-/2)%R.
 Proof. unfold fmhalf, B2R, F2R; simpl. unfold Z.pow_pos; simpl. lra. Qed.
 Lemma normalised_half : forall e, normalised (Rdpe fhalf e).
-Proof. intro e. split. reflexivity. right. simpl. rewrite B2R_fhalf, Rabs_pos_eq; lra. Qed.
+Proof. intro e. split. reflexivity. right. simpl mnt. rewrite B2R_fhalf, Rabs_pos_eq; lra. Qed.
 Lemma normalised_mhalf : forall e, normalised (Rdpe fmhalf e).
-Proof. intro e. split. reflexivity. right. simpl. rewrite B2R_fmhalf, Rabs_left; lra. Qed.
+Proof. intro e. split. reflexivity. right. simpl mnt. rewrite B2R_fmhalf, Rabs_left; lra. Qed.
 Lemma nonzero_half : forall e, nonzero (Rdpe fhalf e).
-Proof. intro e. unfold nonzero; simpl. rewrite B2R_fhalf. lra. Qed.
+Proof. intro e. unfold nonzero; simpl mnt. rewrite B2R_fhalf. lra. Qed.
